@@ -179,7 +179,12 @@ let handle_smtp (kind : string) (ins : string list) (outs : string list) : bool 
              let mode = match naming with "full" -> Full | "domain" -> Domain | _ -> Local in
              addr_diverged := false;
              size_unseen := false;
-             let o = { t_mail = parse_mail_table pip mt; t_rcpt = parse_rcpt_table pip mode rt; t_mail_hook = mh;
+             let rcpt_tab = parse_rcpt_table pip mode rt in
+             (* smtpallow: an extension allows every recipient *)
+             let rh = if kind = "smtpallow"
+               then List.concat (List.map (fun (_, r) -> match r with Some r -> [(r.r_addr, Allow)] | None -> []) rcpt_tab)
+               else rh in
+             let o = { t_mail = parse_mail_table pip mt; t_rcpt = rcpt_tab; t_mail_hook = mh;
                        t_rcpt_hook = rh; t_hdr = parse_hdr_table ht; t_msg_hook = gh } in
              let impl_replies = String.split_on_char '|' replies in
              let par = kind = "luapar" || kind = "smtppar" || kind = "smtprm" in
